@@ -576,9 +576,9 @@ def run_parent(mod, tier, seed, nshards_override=None):
 
     # must-be-populated classes
     req = getattr(mod, 'REQUIRED', {}).get(tier, {})
-    # the module states the count it normally reaches with seed 1; a run fails (exit 2) when a class falls below HALF of that - the purpose is to
+    # the module states the count it normally reaches with seed 1; a run fails (exit 2) when a class falls below A QUARTER of that - the purpose is to
     # notice a generator that has stopped producing a class, not to turn the seed-to-seed variance of a well populated class into an error
-    missing = {k: (labels.get(k, 0), max(1, v // 2)) for k, v in req.items() if labels.get(k, 0) < max(1, v // 2)}
+    missing = {k: (labels.get(k, 0), max(1, v // 4)) for k, v in req.items() if labels.get(k, 0) < max(1, v // 4)}
     if missing and not errors and skipped == 0:
         errors.append(f'generator statistics below required minimum: {missing}')
 
